@@ -1449,7 +1449,7 @@ class ArgumentParser(ParserDeprecations, ActionsContainer, ArgumentLinking, argp
                 elif value is not None:
                     for k, v in enumerate(value):
                         value[k] = action.type(v)  # type: ignore[operator]
-            except (TypeError, ValueError) as ex:
+            except (TypeError, ValueError, argparse.ArgumentTypeError) as ex:
                 raise TypeError(f'Parser key "{key}": {ex}') from ex
         if isinstance(action, argparse._AppendAction) and value is not None and not isinstance(value, list):
             raise TypeError(f'Parser key "{key}": expected a list of values. Got value: {value!r}')
